@@ -522,7 +522,60 @@ def wl_produced(ctx, rng, i):
         shutil.rmtree(tmp, ignore_errors=True)
 
 
+def wl_nested_objects(ctx, rng, i):
+    """Content given as a dictionary whose nested parts are library objects already -- built under the same or under the other version: the
+    named version reaches them like the dictionaries they stand for."""
+    import stix2
+    built_under = ["2.0", "2.1"][i % 2]
+    v = ["2.0", "2.1", None][(i // 2) % 3]
+    t, props = [("file", {"name": "f.txt"}), ("domain-name", {"value": "example.com"}), ("ipv4-addr", {"value": "198.51.100.7"}),
+                ("file", {"name": "g.txt", "parent_directory_ref": "1" if built_under == "2.0" else "directory--5b3b0b3c-0a4e-4f0f-9c57-0d7f7a1b2c77"})][(i // 6) % 4]
+    nj = dict({"type": t}, **props)
+    try:
+        with warnings.catch_warnings():
+            warnings.simplefilter("ignore")
+            if built_under == "2.0":
+                nested = stix2.parse_observable(dict(nj), {"1": "directory"}, version="2.0")
+            else:
+                nested = stix2.parse(dict(nj, spec_version="2.1"), version="2.1")
+            as_json = json.loads(nested.serialize())
+    except Exception as e:
+        ctx.skip("nested object not constructible (%s)" % type(e).__name__)
+        return
+    od = {"type": "observed-data", "id": "observed-data--5b3b0b3c-0a4e-4f0f-9c57-0d7f7a1b2c%02x" % (i % 250), "created": "2020-01-01T00:00:00.000Z", "modified": "2020-01-01T00:00:00.000Z",
+          "first_observed": "2020-01-01T00:00:00Z", "last_observed": "2020-01-01T00:00:00Z", "number_observed": 1}
+    if (i // 24) % 2:
+        od["spec_version"] = "2.1"
+    other = {"type": "directory", "path": "/tmp"} if built_under == "2.0" else {"type": "directory", "spec_version": "2.1", "id": "directory--5b3b0b3c-0a4e-4f0f-9c57-0d7f7a1b2c77", "path": "/tmp"}
+
+    def nested_class(fn):
+        try:
+            with warnings.catch_warnings():
+                warnings.simplefilter("ignore")
+                r = fn()
+            el = r["objects"]["0"]
+            return "%s.%s" % (type(el).__module__.replace("stix2.", ""), type(el).__name__) if not isinstance(el, dict) else "dict"
+        except Exception:
+            return "refused"
+    kw = {} if v is None else {"version": v}
+    for strict in (True, False):
+        ref = nested_class(lambda: stix2.parse(dict(od, objects={"0": dict(as_json), "1": dict(other)}), allow_custom=not strict, **kw))
+        for name, fn in (("parse(dictionary holding library objects, version)", lambda: stix2.parse(dict(od, objects={"0": nested, "1": dict(other)}), allow_custom=not strict, **kw)),
+                         ("MemoryStore.add(dictionary holding library objects, version)",
+                          lambda: (lambda s_: (s_.add(dict(od, objects={"0": nested, "1": dict(other)}), **kw), s_.get(od["id"]))[1])(stix2.MemoryStore(allow_custom=not strict)))):
+            got = nested_class(fn)
+            ctx.ev()
+            ctx.count("nested_object_cases")
+            ctx.nontrivial("nested", built_under, str(v), t, strict, name.split("(")[0], got)
+            ctx.see("entry points", name)
+            if got != ref:
+                ctx.violation("entry-point-disagrees:nested-library-object", "%s with version=%r (%s): the contained %s built under %s came out as %s; the same content as plain JSON: %s" % (
+                    name, v, "strict" if strict else "lenient", t, built_under, got, ref),
+                    {"container": od, "nested_json": as_json, "built_under": built_under, "version": v, "strict": strict, "got": got, "as_plain_json": ref})
+
+
 WORKLOADS = [
+    Workload("nested-library-objects", wl_nested_objects, quick=96, thorough=96),
     Workload("dicts", wl_dicts, quick=lambda: len(SUBJECTS), thorough=lambda: len(SUBJECTS) * 100),
     Workload("produced", wl_produced, quick=lambda: len(SUBJECTS) * 2, thorough=lambda: len(SUBJECTS) * 200),
 ]
